@@ -12,6 +12,7 @@ import (
 	"encoding/hex"
 	"encoding/json"
 	"fmt"
+	"github.com/relex/slog-agent/output/fluentdforward"
 	"os"
 	"os/exec"
 	"os/signal"
@@ -74,7 +75,9 @@ func sizeOf(f Fault, i int) int {
 	return 40 + i
 }
 
-func matchID(id string) bool { return strings.HasSuffix(id, ".ff") }
+// matchID is the product's own test for "this file name is a chunk of the Forward output" (not a copy of it: a change to the
+// matcher is a change to what recovery picks up)
+var matchID = (&fluentdforward.Config{}).MatchChunkID
 
 func setDefs() {
 	defs.BufferMaxNumChunksInMemory = 4
